@@ -33,7 +33,7 @@ namespace EasyFEAVerif.Props.C19
 
 open EasyFEAVerif.Gen
 
-theorem forms_spec : (C19.forms.map Prod.fst) = ["Construct_local_matrix_system", "Save_Iter", "Set_Iter", "VonMises", "Svm", "Linear"] := rfl
+theorem forms_spec : (C19.forms.map Prod.fst) = ["Construct_local_matrix_system", "Save_Iter", "Set_Iter", "VonMises", "Svm", "Linear", "Plane_stress_strain"] := rfl
 
 /-! ### scalar return mapping -/
 
@@ -243,5 +243,51 @@ end stateMachine
 /-! ### non-vacuity: μ = 1, H = 1, σ_y = 1, q_tr = 5, p = 0 flows with Δp = 1 and lands on the surface -/
 example : dP (⟨1, 1, 1⟩ : Mat ℚ) 5 0 = 1 ∧ qNew (⟨1, 1, 1⟩ : Mat ℚ) 5 0 = 2 ∧ yieldF (⟨1, 1, 1⟩ : Mat ℚ) 2 1 = 0 := by
   refine ⟨?_, ?_, ?_⟩ <;> simp [dP, qNew, yieldF] <;> norm_num
+
+/-! ### plane stress: the stop test of `__Plane_stress_strain` on a field of points -/
+
+section planeStress
+variable {K : Type*} [Field K] [LinearOrder K] [IsStrictOrderedRing K]
+
+/-- `np.max(np.abs(r_e_pg))` over the points of a field -/
+def maxAbs (r : List K) : K := (r.map abs).foldr max 0
+
+theorem le_maxAbs (r : List K) : ∀ x ∈ r, |x| ≤ maxAbs r := by
+  induction r with
+  | nil => intro x hx; cases hx
+  | cons a l ih =>
+    intro x hx
+    simp only [maxAbs, List.map_cons, List.foldr_cons]
+    rcases List.mem_cons.mp hx with rfl | h
+    · exact le_max_left _ _
+    · exact le_trans (ih x h) (le_max_right _ _)
+
+/-- **the stop test of the plane-stress loop** (`np.max(np.abs(r_e_pg)) < tol`, `r` = σ_zz at every integration point of the
+field): when the loop stops, the out-of-plane stress of EVERY point of the field is below the tolerance — a point is treated
+exactly as if it were alone -/
+theorem plane_stress_stop_sound (r : List K) (tol : K) (h : maxAbs r < tol) : ∀ x ∈ r, |x| < tol :=
+  fun x hx => lt_of_le_of_lt (le_maxAbs r x hx) h
+
+/-- and conversely the loop does stop once every point is below the tolerance -/
+theorem plane_stress_stop_complete (r : List K) (tol : K) (ht : 0 < tol) (h : ∀ x ∈ r, |x| < tol) : maxAbs r < tol := by
+  induction r with
+  | nil => simpa [maxAbs] using ht
+  | cons a l ih =>
+    simp only [maxAbs, List.map_cons, List.foldr_cons]
+    exact max_lt (h a (List.mem_cons_self ..)) (ih fun x hx => h x (List.mem_cons_of_mem _ hx))
+
+/-- a test on the absolute value of the largest residual (seed C19_H: `np.abs(np.max(r)) < tol`) is not sound: a field whose
+points are all in compression, one converged and one not -/
+example : |(([-5, 0] : List ℚ).foldr max (-5))| < 1 ∧ ¬ (∀ x ∈ ([-5, 0] : List ℚ), |x| < 1) := by
+  refine ⟨by norm_num, fun h => ?_⟩
+  have := h (-5) (by simp)
+  norm_num at this
+
+/-- one Newton step `eps_zz - r / C_zz` cancels the residual of a linear (elastic) response exactly -/
+theorem plane_stress_newton_linear (r c : K) (hc : c ≠ 0) : r + c * (-(r / c)) = 0 := by
+  field_simp
+  ring
+
+end planeStress
 
 end EasyFEAVerif.Props.C19
